@@ -69,3 +69,16 @@ for cvname, dt in (("DATE", "M8[ns]"), ("TIME_MILLIS", "m8[ms]")):
         print("output =", assign, " (values", vals, ")")
     except Exception as ex:
         print("raises", type(ex).__name__, str(ex)[:90], "| output array so far:", assign.view("i8").tolist())
+
+print("7. append of a frame whose column dtype is wider than the dataset column: names are checked, dtypes are not; convert narrows silently")
+import shutil
+for base, app in ((np.array([1, 2], "int32"), np.array([2 ** 31 + 5, 7], "int64")), (np.array([1, 2], "int8"), np.array([300, 7], "int64")),
+                  (np.array([1, 2], "uint32"), np.array([-1, 7], "int64")), (np.array([1, 2], "int64"), np.array([1.5, 7.0], "float64")),
+                  (np.array([1.5, 2.0], "float32"), np.array([16777217, 7], "int64"))):
+    dn = os.path.join(d, "ds"); shutil.rmtree(dn, ignore_errors=True)
+    fp.write(dn, pd.DataFrame({"x": base}), file_scheme="hive")
+    try:
+        fp.write(dn, pd.DataFrame({"x": app}), file_scheme="hive", append=True)
+        print(f"   dataset column {base.dtype}, appended {app.dtype} {app.tolist()} -> reads", fp.ParquetFile(dn).to_pandas()["x"].tolist())
+    except Exception as ex:
+        print(f"   dataset column {base.dtype}, appended {app.dtype} {app.tolist()} -> raises {type(ex).__name__}: {str(ex)[:80]}")
